@@ -567,7 +567,7 @@ def check(run):
     n = 260 if run.tier == "quick" else 3000
     merge_part(run, n)
     # callbacks that change the set of tracks during the track phase (unschedule / mute a neighbour, stop themselves, schedule)
-    MP.midphase_part(run, 60 if run.tier == "quick" else 700, with_instances=False)
+    MP.midphase_part(run, 60 if run.tier == "quick" else 700)
     static_part(run, 240 if run.tier == "quick" else 3000)
     # the same static / current-time / globals objects used by tracks of several timelines (one after the other, alternately)
     M.multi_part(run, 120 if run.tier == "quick" else 1500)
